@@ -18,11 +18,13 @@ CLAIM = dict(
 
 @register("C13", claim=CLAIM)
 def run(ctx):
-    ctx.rule = ("scenario = cache kind x number of files x read-fault position x transport-fault position x retrieve-fault position (TLC), x how the read fault "
+    ctx.rule = ("scenario = cache kind x number of files x read-fault position x transport-fault position x retrieve-fault position x stale outputs present (TLC), x how the read fault "
                 "is produced (hook / missing output) x output shape (flat / directory); non-trivial = some fault injected; distinct by full scenario")
     vlib.tlc(ctx, "StreamCache", "MC_StreamCache.cfg")
     fl = vlib.tlc(ctx, "StreamCache", "MC_StreamCache_flaw.cfg", allow_violation=True)
     ctx.extra["flaw_http_closes_normally_model_counterexample"] = fl.invariant
+    fl = vlib.tlc(ctx, "StreamCache", "MC_StreamCache_flaw2.cfg", allow_violation=True)
+    ctx.extra["flaw_merges_stale_dir_model_counterexample"] = fl.invariant
     r = vlib.tlc(ctx, "StreamCache", "GEN_StreamCache.cfg" if ctx.quick else "GEN_StreamCache_4.cfg")
     if ctx.replay_only is not None:
         cases = [d["case"] for d in ctx.replay_only]
@@ -42,14 +44,18 @@ def run(ctx):
     for c in cases:
         o = obs[c["id"]]
         fault = "read-fault" if c["readFaultAt"] else "transport-fault" if c["sendFaultAt"] else "none"
-        nt = bool(c["readFaultAt"] or c["sendFaultAt"] or c["getFaultAt"])
+        nt = bool(c["readFaultAt"] or c["sendFaultAt"] or c["getFaultAt"] or c.get("stale"))
         ctx.count(json.dumps({k: v for k, v in c.items() if k not in ("id", "expect", "expectCommitted")}), nontrivial=nt,
                   sample=dict(scenario=c, observed=o) if nt else None)
         ctx.traces_validated += 1
         if o["hit"] and sorted(o["restored"]) != sorted(o["want"]):
-            ctx.violation("C13 hit-with-missing-or-truncated-files kind=%s store-fault=%s%s retrieve-fault=%s" % (
-                c["kind"], fault, (" via=" + c["faultStyle"]) if c["readFaultAt"] else "", bool(c["getFaultAt"])),
-                dict(case=c, observed=o))
+            extra = sorted(set(o["restored"]) - set(o["want"]))
+            if c.get("stale") and extra and not (set(o["want"]) - set(o["restored"])) and all(e.split("/")[-1].startswith("only-in-previous") for e in extra):
+                ctx.violation("C13 hit-leaves-stale-entry-in-directory-output kind=%s" % c["kind"], dict(case=c, observed=o))
+            else:
+                ctx.violation("C13 hit-with-missing-or-truncated-files kind=%s store-fault=%s%s retrieve-fault=%s%s" % (
+                    c["kind"], fault, (" via=" + c["faultStyle"]) if c["readFaultAt"] else "", bool(c["getFaultAt"]),
+                    " over-stale-outputs" if c.get("stale") else ""), dict(case=c, observed=o))
         if o["committed"] != c["expectCommitted"]:
             drift += 1
     if drift:
